@@ -1,6 +1,7 @@
 import Noodles.Basic.Wire
 import Noodles.Csi.QueryModel
 import Noodles.Csi.Driver
+import Noodles.Span.DriverC04Span
 /-! Line-protocol handler for the index-and-query pipeline (`c04 …`). -/
 namespace Noodles.Csi
 open Noodles.Wire
@@ -30,6 +31,6 @@ def handleC04 : List String → String
                     else queryChunksBinned ms d off recs qs qe
       s!"chunks={fmtChunks chunks} recs={fmtIds (queryRecs chunks off recs qs qe)}"
     | _, _, _, _, _ => "bad-op"
-  | _ => "bad-op"
+  | ws => Noodles.Span.Driver.handle ws
 
 end Noodles.Csi
